@@ -165,7 +165,7 @@ pub fn check_grammar(f: &FamGrammar, maxlen: usize, res: &mut ShardResult) {
 pub fn family_list(tier: &str) -> Vec<FamGrammar> {
     let (_, _, _, cap) = params(tier);
     let mut out = vec![];
-    for fam in [families::g1(), families::g2(), families::g3(), families::g4(), families::g7(), families::g8()] {
+    for fam in [families::g1(), families::g2(), families::g3(), families::g4(), families::g7(), families::g8(), families::g10()] {
         let n = fam.len();
         // simplest first; under a cap take an evenly spread subset so that every switch value and shape still occurs
         if cap == 0 || n <= cap { out.extend(fam); } else {
@@ -182,7 +182,7 @@ pub fn worker(ctx: &Ctx, res: &mut ShardResult) {
     let (n1, n2, n3, _) = params(&ctx.tier);
     for (i, f) in family_list(&ctx.tier).iter().enumerate() {
         if !ctx.mine(i) { continue; }
-        let n = match f.kind { "G1" => n1, "G2" => n2, "G4" => 5.min(n1.max(4)), "G7" => 5.min(n1.max(4)), "G8" => 6.min(n1.max(4) + 1), _ => n3 };
+        let n = match f.kind { "G1" => n1, "G2" => n2, "G4" => 5.min(n1.max(4)), "G7" => 5.min(n1.max(4)), "G8" => 6.min(n1.max(4) + 1), "G10" => 4.min(n1.max(3)), _ => n3 };
         check_grammar(f, n, res);
         if res.too_many() { return; }
         if ctx.out_of_time() { res.caps.push("wall-clock budget reached; remaining grammars not explored".into()); return; }
